@@ -109,6 +109,7 @@ for pid, spec in sorted(PM.items()):
             args = [n for g in lead for n in g[1:-1].split(':')[0].split()] + args
         op = opens(src, start)
         op = [o for o in op if o != 'Peppi']
+        if len(cur) > 1: op.append('.'.join(cur))   # theorem stated inside a nested namespace: its names must resolve here too
         body.append('/- from `%s` -/' % mod)
         if op: body.append('open %s in' % ' '.join(dict.fromkeys(' '.join(op).split())))
         body.append(hdr2 + ' :=\n  _root_.%s %s\n' % (full, ' '.join(args)))
